@@ -326,7 +326,9 @@ func (a *Announce) AnnounceName(name string) bool {
 func (a *Announce) GetStatus(meta types.NamespacedName) []IPAdvertisement {
 	a.RLock()
 	defer a.RUnlock()
-	return a.ips[meta.String()]
+	// Return a copy: the caller reads it without the lock, while SetBalancer
+	// overwrites the elements of the stored slice in place.
+	return append([]IPAdvertisement(nil), a.ips[meta.String()]...)
 }
 
 // GetInterfaces returns current interfaces list.
